@@ -114,6 +114,13 @@ def contract_compute_synthetic_partials(ct, I, o, args, kwargs):
     return None
 
 
+def vars_bound(I, o):
+    """Upper bound of the variables that entries written for node o may mention: Vars(o); a
+    virtual node of a loop invariant may state a larger set (ghost `vars_bound`)."""
+    f = o.ghost.get("vars_bound")
+    return f(I) if f is not None else spec.vars_of(I, o)
+
+
 def post_state_dict(ct, I, o, d, m):
     """The accumulator dict after `o._compute_synthetic_partials(acc, m)` started from dict d,
     as given by the contract (state produced per name on demand)."""
@@ -127,7 +134,7 @@ def post_state_dict(ct, I, o, d, m):
         I2.path.assume(z3.Implies(z3.Not(absent1),
                                   sym.subset(new.ghost["vars"],
                                              sym.union(sym.union(old_vars(I2, absent0, old), spec.vars_of(I2, m)),
-                                                       spec.vars_of(I2, o)))))
+                                                       vars_bound(I2, o)))))
 
         def link(I3, pt, dn):
             I3.path.assume(accumulate_clause(I3, pt, k, absent0, old, absent1, new, o, m))
